@@ -196,6 +196,10 @@ structure Item where
   canceled : Bool := false    -- Task.canceled
   hasFn : Bool := true        -- control routine present (nil routines are "run" without a goroutine)
   sent : Bool := false        -- the result has been sent on ctrlFnError
+  waited : Option Bool := none -- stop: how the wait of `stopAllTasks` ended (`false`: `stopComplete` was closed,
+                              --   `true`: the stop timeout fired); `none`: it is still waiting
+  sawSent : Bool := false     -- stop: the stop routine's result was on `stopFnError` when the stopper fetched it
+  passErr : CtrlRet := .nil   -- stop: the `err` that `stopAllTasks` puts into its report to the pass
   deriving Repr, Inhabited
 
 /-- Effect of one atomic step on the shared state. -/
@@ -380,6 +384,35 @@ def stopStep (env : Env) (it : Item) : Option (Item × Eff) :=
   | 8 => some ({ it with pc := 9, sent := true }, {})               -- ctrlFnError <- err (stopAllTasks receives it after stopComplete)
   | _ => none
 
+/-! ### `stopAllTasks`: the wait and the two places where the stop routine's result is fetched (modules.go)
+
+    var err error
+    select {
+    case <-m.stopComplete:                 err = <-stopFnError
+    case <-time.After(moduleStopTimeout):  select { case err = <-stopFnError: default: }
+    }
+    … reports <- &report{module: m, err: err}
+
+The shape of the two receives is regenerated from the source (`PB.Gen.Managed.stopFetch`): a receive written with
+`:=` inside a case clause declares a new `err` there and leaves the reported one nil. -/
+
+/-- Does the receive at this site (`"completed"` / `"timeout"`) assign to the function's own `err`? -/
+def fetchAssigns (site : String) : Bool :=
+  PB.Gen.Managed.stopFetch.any fun x => x.1 == site && x.2.2 == "="
+
+/-- `err` of `stopAllTasks` after its wait: `sent` = the stop routine's goroutine has put its result on the (buffered)
+    channel, `cret` = that result. On completion the receive blocks until the result is there (the guard of the step);
+    on timeout it is taken only if it is there already. -/
+def stopErr (timeout sent : Bool) (cret : Option CtrlRet) : CtrlRet :=
+  if timeout then (if sent && fetchAssigns "timeout" then cret.getD .nil else .nil)
+  else (if fetchAssigns "completed" then cret.getD .nil else .nil)
+
+/-- The stopper (the goroutine of `stopAllTasks`) of this stop item is inside its wait: `startCtrlFn` has returned
+    (with a routine: right after the flag was set and the routine's goroutine launched; without: after UnSet, check and
+    the send of nil, which it does itself). -/
+def Item.stopperWaiting (it : Item) : Bool :=
+  it.kind == .stop && it.waited.isNone && (if it.hasFn then 4 ≤ it.pc else it.pc == 9)
+
 def itemStep (env : Env) (it : Item) (ch : Bool) : Option (Item × Eff) :=
   match it.kind with
   | .runWorker | .startWorker | .hook | .api _ _ => workerStep it
@@ -538,11 +571,14 @@ inductive Act where
   | recv                          -- the consumer of the error channel receives (or parks in the receive)
   | spawn (it : Item)             -- a new managed execution arrives
   | queue (i : Nat) (outs : List Outcome)  -- an idle task is queued again (Task.Queue & co.)
+  | stopper (i : Nat) (timeout : Bool)     -- the wait of `stopAllTasks` of stop item `i` ends (completion / stop timeout)
+                                           --   and the stop routine's result is fetched into the reported `err`
   deriving Repr
 
 /-- A freshly arriving item starts at the beginning of its program with nothing recorded. -/
 def Item.fresh (it : Item) : Bool :=
-  it.pc == 0 && it.reps == 0 && it.pans == 0 && it.runs == 0 && !it.executing && it.ret.isNone && it.cret.isNone
+  it.pc == 0 && it.reps == 0 && it.pans == 0 && it.runs == 0 && !it.executing && it.ret.isNone && it.cret.isNone &&
+    !it.sent && it.waited.isNone
 
 def step (s : St) : Act → Option St
   | .item i ch =>
@@ -563,6 +599,16 @@ def step (s : St) : Act → Option St
     | some it =>
       if it.kind = .task ∧ (it.pc = 7 ∨ it.pc = 8) then
         some { s with items := s.items.set i { it with pc := 0, outs := it.outs ++ outs } }
+      else none
+  | .stopper i timeout =>
+    match s.items[i]? with
+    | none => none
+    | some it =>
+      -- `case <-m.stopComplete` needs the closed channel, and the receive `err = <-stopFnError` in it the result;
+      -- `case <-time.After(moduleStopTimeout)` can be taken at any time
+      if it.stopperWaiting = true ∧ (timeout = true ∨ (s.stopCompleted = true ∧ it.sent = true)) then
+        let it' : Item := { it with waited := some timeout, sawSent := it.sent, passErr := stopErr timeout it.sent it.cret }
+        some { s with items := s.items.set i it' }
       else none
 
 def run (s : St) : List Act → Option St
@@ -606,6 +652,22 @@ def runCtrl (k : Kind) (fn : Option Outcome) : CtrlRet × List Report :=
   let s1 := runHeld 16 s0 0
   let s2 := runHeld 16 (finishItem s1 0) 0
   ((s2.items[0]?.bind (fun it => if it.sent then it.cret else none)).getD .nil, s2.feed)
+
+/-- A module is stopped: its stop program runs to the end (the routine's result is sent), then the wait of
+    `stopAllTasks` ends — by completion, or, when a piece of work of the module does not return (`linger`: a worker
+    that stays inside its function), by the stop timeout — and the result is fetched. What the pass receives in the
+    report, and the reports made on the error channel. -/
+def runStop (fn : Option Outcome) (linger : Bool) : CtrlRet × List Report :=
+  let it : Item := { kind := .stop, outs := (match fn with | some o => [o] | none => []), hasFn := fn.isSome }
+  let w : Item := { kind := .startWorker }
+  let n := if linger then 1 else 0
+  let s0 : St := { cap := 16, items := if linger then [w, it] else [it] }
+  let s0 := if linger then runHeld 16 s0 0 else s0
+  let s1 := runHeld 16 s0 n
+  let s2 := runHeld 16 (finishItem s1 n) n
+  match step s2 (.stopper n (!s2.stopCompleted)) with
+  | some s3 => ((s3.items[n]?.map (·.passErr)).getD .nil, s3.feed)
+  | none => (.nil, s2.feed)
 
 /-! ### Lifecycle passes: what Start / ManageModules / Shutdown return (start.go, stop.go, mgmt.go)
 
